@@ -89,7 +89,7 @@ macro_rules! tree_test {
             }
             let max = *s.iter().max().unwrap();
             for _ in 0..60 {
-                let i = match rng.gen_range(0..5) { 0 => 0, 1 => n, 2 => n + 1, 3 => n.saturating_sub(1), _ => rng.gen_range(0..=n) };
+                let i = match rng.gen_range(0..6) { 0 => 0, 1 => n, 2 => n + 1, 3 => n.saturating_sub(1), 4 => usize::MAX - rng.gen_range(0..2), _ => rng.gen_range(0..=n) };
                 chk!($label, inp.clone(), format!("get({})", i), t.get(i), s.get(i).copied());
                 let c: $elem = match rng.gen_range(0..5) { 0 => s[rng.gen_range(0..n)], 1 => max, 2 => max.wrapping_add(1), 3 => rng.gen::<$elem>(), _ => s[rng.gen_range(0..n)] ^ 1 };
                 let cnt_upto = |j: usize| s[..j.min(n)].iter().filter(|&&x| x == c).count();
@@ -192,7 +192,7 @@ fn qvector_test(rng: &mut StdRng) {
     chk!("QVector", inp.clone(), "len()".to_string(), qv.len(), n);
     chk!("QVector", inp.clone(), "collect == push".to_string(), qv2 == qv, true);
     for _ in 0..40 {
-        let i = if n == 0 { rng.gen_range(0..3) } else { rng.gen_range(0..n + 2) };
+        let i = if rng.gen_range(0..8) == 0 { usize::MAX - rng.gen_range(0..3) } else if rng.gen_range(0..8) == 0 { 1usize << rng.gen_range(40..64) } else if n == 0 { rng.gen_range(0..3) } else { rng.gen_range(0..n + 2) };
         chk!("QVector", inp.clone(), format!("get({})", i), qv.get(i), vals.get(i).map(|&v| (v & 3) as u8));
         if i < n { chk!("QVector", inp.clone(), format!("get_unchecked({})", i), unsafe { qv.get_unchecked(i) }, (vals[i] & 3) as u8); }
     }
@@ -267,6 +267,21 @@ fn bitvector_test(rng: &mut StdRng) {
     let rebuilt: BitVectorMut = model.iter().copied().collect();
     chk!("BitVectorMut", hist.clone(), "== vector collected from the same bools".to_string(), rebuilt == bv, true);
     let imm: BitVector = bv.clone().into();
+    for &(i, len) in &[(usize::MAX, 1usize), (usize::MAX, 64), (usize::MAX - 63, 64), (usize::MAX / 2 + 1, 2), (0, 0), (0, 65), (0, usize::MAX), (n, 1), (n.saturating_sub(1), 2)] {
+        let ok = len >= 1 && len <= 64 && i.checked_add(len).map_or(false, |e| e <= n);
+        if !ok {
+            chk!("BitVector", hist.clone(), format!("get_bits({},{})", i, len), imm.get_bits(i, len), None);
+            chk!("BitVectorMut", hist.clone(), format!("get_bits({},{})", i, len), bv.get_bits(i, len), None);
+        }
+        chk!("BitVector", hist.clone(), format!("get({})", i), imm.get(i), model.get(i).copied());
+        chk!("BitVectorMut", hist.clone(), format!("get({})", i), bv.get(i), model.get(i).copied());
+    }
+    {
+        let d = BitVector::default(); let dm = BitVectorMut::default();
+        chk!("BitVector", "default()".to_string(), "len/get/get_bits/count/ones on the default vector".to_string(),
+             (d.len(), d.get(0), d.get_bits(0, 1), d.count_ones(), d.ones().count(), d.zeros().count(), dm.len(), dm.get(usize::MAX), dm.get_bits(usize::MAX, 1), dm.iter().count()),
+             (0, None, None, 0, 0, 0, 0, None, None, 0));
+    }
     for _ in 0..10 {
         let len = rng.gen_range(1..=64usize); let i = rng.gen_range(0..n + 2);
         let exp = if i + len <= n { Some((0..len).map(|t| (model[i + t] as u64) << t).sum::<u64>()) } else { None };
@@ -307,9 +322,15 @@ macro_rules! rsq_test {
                 chk!($label, inp.clone(), format!("occs({})", s), r.occs(s), tot);
                 chk!($label, inp.clone(), format!("occs_smaller({})", s), r.occs_smaller(s), if s < 4 { Some((0..s as usize).map(|t| pref[n][t]).sum()) } else { None });
             }
+            {
+                let d = <$ty>::default();
+                chk!($label, "default()".to_string(), "len/get/rank/select/occs on the default vector".to_string(),
+                     (d.len(), d.get(0), d.rank(0, 1), d.rank(1, 0).unwrap_or(0), d.select(0, 0), d.select(3, usize::MAX), d.occs(2).unwrap_or(0), d.rank(4, 0)),
+                     (0, None, None, 0, None, None, 0, None));
+            }
             for _ in 0..200 {
                 let s: u8 = if rng.gen_bool(0.9) { rng.gen_range(0..4) } else { rng.gen() };
-                let i = match rng.gen_range(0..4) { 0 => n, 1 => n + 1, 2 => (rng.gen_range(0..=n / 256 + 1) * 256).min(n + 1), _ => rng.gen_range(0..=n) };
+                let i = match rng.gen_range(0..5) { 0 => n, 1 => n + 1, 2 => (rng.gen_range(0..=n / 256 + 1) * 256).min(n + 1), 3 => usize::MAX - rng.gen_range(0..2), _ => rng.gen_range(0..=n) };
                 chk!($label, inp.clone(), format!("rank({}, {})", s, i), r.rank(s, i), if s < 4 && i <= n { Some(pref[i][s as usize]) } else { None });
                 chk!($label, inp.clone(), format!("get({})", i), r.get(i), q.get(i).copied());
                 let tot = if s < 4 { pref[n][s as usize] } else { 0 };
@@ -350,8 +371,14 @@ macro_rules! rsbin_test {
             let ones = pref[n];
             chk!($label, inp.clone(), "n_ones()".to_string(), r.n_ones(), ones);
             chk!($label, inp.clone(), "n_zeros()".to_string(), RankBin::n_zeros(&r), n - ones);
+            {
+                let d = <$ty>::default();
+                chk!($label, "default()".to_string(), "get/rank/select/totals on the default structure".to_string(),
+                     (d.get(0), d.rank1(0).unwrap_or(0), d.rank1(1), d.rank0(0).unwrap_or(0), d.select1(0), d.select0(0), d.select1(usize::MAX), d.n_ones(), RankBin::n_zeros(&d)),
+                     (None, 0, None, 0, None, None, None, 0, 0));
+            }
             for _ in 0..200 {
-                let i = match rng.gen_range(0..4) { 0 => n, 1 => n + 1, 2 => (rng.gen_range(0..=n / 512 + 1) * 512).min(n + 1), _ => rng.gen_range(0..=n) };
+                let i = match rng.gen_range(0..5) { 0 => n, 1 => n + 1, 2 => (rng.gen_range(0..=n / 512 + 1) * 512).min(n + 1), 3 => usize::MAX - rng.gen_range(0..2), _ => rng.gen_range(0..=n) };
                 if n > 0 {
                     chk!($label, inp.clone(), format!("rank1({})", i), r.rank1(i), if i <= n { Some(pref[i]) } else { None });
                     chk!($label, inp.clone(), format!("rank0({})", i), r.rank0(i), if i <= n { Some(i - pref[i]) } else { None });
@@ -402,6 +429,14 @@ fn darray_test(rng: &mut StdRng) {
         chk!("DArray<true>", inp.clone(), "collect from bools == collect from positions".to_string(), db == da, true);
         let bvv: BitVector = pos.iter().copied().collect();
         chk!("DArray<true>", inp.clone(), "new(BitVector) == collect, clone == self".to_string(), (DArray::<true>::new(bvv) == da, da.clone() == da), (true, true));
+    }
+    {
+        let d1 = DArray::<true>::default(); let d0 = DArray::<false>::default();
+        chk!("DArray", "default()".to_string(), "len/count/select/get on the default structures".to_string(),
+             (d1.len(), d1.count_ones(), d1.count_zeros(), d1.select1(0), d1.select0(0), d1.select0(usize::MAX), d1.get(0), d0.len(), d0.select1(0), d0.select1(usize::MAX), d0.get(usize::MAX), d1.clone() == d1),
+             (0, 0, 0, None, None, None, None, 0, None, None, None, true));
+        let e: DArray<true> = Vec::<usize>::new().into_iter().collect();
+        chk!("DArray", "collect of no positions".to_string(), "select/len".to_string(), (e.len(), e.select1(0), e.select0(0)), (0, None, None));
     }
     chk!("DArray<true>", inp.clone(), "count_ones()".to_string(), da.count_ones(), pos.len());
     chk!("DArray<true>", inp.clone(), "len()".to_string(), da.len(), n);
